@@ -191,6 +191,8 @@ def build_frame(fr):
             nc = fr['cat_names']
             feat[stype.categorical] = torch.tensor(spread(fr['cat'], [5] * nc),
                                                    dtype=_dt(fr.get('cat_dt', 'int64'))).reshape(R, nc)
+            if via == 'colmajor' and R > 1 and nc > 1:
+                feat[stype.categorical] = feat[stype.categorical].t().contiguous().t()
             names[stype.categorical] = [f'cat{j}' for j in range(nc)]
         elif s == 'numerical':
             nn = fr['num_names']
